@@ -74,14 +74,15 @@ def step (s : Sess) (c : Cmd) : Sess × String × String :=
       else if c.fired > 0 then (.errAlloc, none) else (.ok, some [])
     -- the harness allocator refuses requests above 2^40 bytes ("absurd"): the buffer request of such a
     -- capacity fails without counting as a scheduled refusal
-    let absurd := cap * PQueue.ptrSize > 2 ^ 40
+    let triple : Triple := if dflt then .libc else .conf
+    let absurd := !dflt && cap * PQueue.ptrSize > 2 ^ 40
     -- a model buffer of more than 2^24 slots is not materialised: no model line for such sessions
     if !invalid && !absurd && cap > 16777216 then
       let s' : Sess := { mem := m, exp := f, modc }
       (s', lineS (fmtStat sst) { s' with spec := sp }, "M ? capacity too large for the executable model")
     else
     let m := if absurd && c.sched.isEmpty then s.mem.begin [false, true] else m
-    let (st, r, m) := PQueue.new cap (exGeF f) m
+    let (st, r, m) := PQueue.new cap (exGeF f) triple m
     let m := if absurd && c.sched.isEmpty then { m with nrefused := 0 } else m
     let s' : Sess := { model := r, spec := sp, scap := cap, mem := m, exp := f, modc }
     (s', lineS (fmtStat sst) s', lineM (fmtStat st) s' none)
@@ -112,11 +113,11 @@ def step (s : Sess) (c : Cmd) : Sess × String × String :=
       (s', lineS (hdOut s.modc so.st so.val false) s', lineM (hdOut s.modc st out false) s' (if st == .ok then out else none))
     | "pop" =>
       let quiet := c.nat "null" 0 != 0
-      let (st, out, r', m) := PQueue.pop cmp r m
+      let (st, out, r', m) := PQueue.popOut cmp r (!quiet) m
       let (so, f') := Spec.PQ.popFirst cmp f
       let s' : Sess := { s with model := some r', spec := some f', mem := m }
       (s', lineS (hdOut s.modc so.st so.val quiet) s',
-       lineM (hdOut s.modc st out quiet) s' (if st == .ok && !quiet then out else none))
+       lineM (hdOut s.modc st out quiet) s' (if st == .ok then out else none))
     | "destroy" =>
       let m := r.destroy m
       let s' : Sess := { mem := m }
